@@ -208,7 +208,7 @@ def build(tier, seed):
             gmod = circ_m._mod(L.gates)
             import sympy as _real_sympy
             sy = trig._NS("sympy", **{k: v for k, v in trig.SYMPY.__dict__.items() if k != "_name"}, Number=_real_sympy.Number)
-            wo = src.shadow_load(WO, {"np": trig.NUMPY, "sympy": sy})
+            wo = src.shadow_load(WO, {"np": trig.NUMPY, "sympy": sy}, rebind=L.shadows())
             ws = src.shadow_load(WS, {"np": trig.NUMPY, "split_circuit": L.circ.split_circuit, "Wavefunction": (lambda s: s),
                                       "GateOperation": L.gates.GateOperation, "Circuit": L.Circuit})
             ss = src.shadow_load(SS, {"BaseWavefunctionSimulator": ws.BaseWavefunctionSimulator})
